@@ -19,11 +19,5 @@ CONSTANTS
   Eager = TRUE
   Track = FALSE
 VIEW View
-INVARIANT TypeOK
-INVARIANT RemoteClosed
-INVARIANT NeverDropped
-PROPERTY SinceSafe
-PROPERTY OffsetMin
-PROPERTY HeadSafe
-PROPERTY HeadCoversFrontier
+PROPERTY ReachFuture
 CHECK_DEADLOCK FALSE
